@@ -1,4 +1,5 @@
 import CwPlus.Lemmas.Cw3Fixed
+import CwPlus.Lemmas.Cw3FixedAt
 /-!
 # C05 (cw3-fixed part) — passed proposals execute at most once; the lifecycle only moves forward
 
@@ -7,8 +8,9 @@ finite list of operations (transactions by anybody with re-entrant self-calls an
 dispatches, funding, sink changes, arbitrary blocks) after an accepted instantiation
 (`Reachable fuel w`).  cw3-fixed has no executor setting: anyone may call Execute.
 
-The cw3-flex part of C05 is pending; the generic lemmas it will reuse are in `Lemmas/Cw3Core.lean`
-(`execute_spec`, `close_spec`, `edge`, `cs_edge`, `Later`, `*_later`).
+The cw3-flex part of C05 is `Props/C05Flex.lean`; the generic lemmas both use are in `Lemmas/Cw3Core.lean`
+(`execute_spec`, `close_spec`, `edge`, `cs_edge`, `Later`, `*_later`) and `Lemmas/Cw3Status.lean`
+(`CoreStep`, `PropStep`, `OpenOk`, `FrozenOk`, `observed_edge_core`).
 -/
 namespace CwPlus.Props.C05
 open CwPlus CwPlus.Cw3 CwPlus.Cw3Core CwPlus.Cw3Fixed
@@ -508,6 +510,60 @@ theorem observed_status_monotone_in_time {fuel : Nat} {w : World} {b b1 b2 : Blo
     rw [e1] at hq1; rw [e2] at hq2
     cases hq1; cases hq2; exact edge_refl _
 
+/-! ## the observed status only moves forward — over operations AND time, in one statement -/
+
+/-- In a reachable state every `Proposal` query of an existing proposal answers, at every block (inside
+`Inv` the library decision cannot panic: C04 `no_panic`). -/
+theorem query_always_answers {fuel : Nat} {w : World} (hr : Reachable fuel w) {id : Nat} {p : Proposal}
+    (hp : w.ms.core.proposals.get? id = some p) (blk : Block) : ∃ v, Cw3Fixed.queryProposal w.ms blk id = .ok v := by
+  have hprem := premise_of_inv (reachable_inv hr) hp
+  have hprem' : CwPlus.Props.C04.Premise p.tally := ⟨hprem.tally_le, hprem.total_u64, hprem.valid⟩
+  obtain ⟨st, hst⟩ := (CwPlus.Props.C04.no_panic hprem' blk).2.2
+  have hst' : p.currentStatus blk = .ok st := hst
+  simp [Cw3Fixed.queryProposal, Cw3Core.queryProposal, load, hp, viewOf, hst', bind, Except.bind, pure, Except.pure]
+
+/-- C05 "observed over time each proposal's status only moves Open to Passed to Executed or Open to
+Rejected" — ONE statement over operations and time.  Take ANY reachable world `w0` (any history after an
+accepted instantiation) and query a proposal there at any block `b1`; let any further history follow
+(`ReachableFrom`: any operations by anybody — votes, executes, closes, other proposals, re-entrant and
+failing dispatches, funding — at blocks `≥ b1` that never go back, last operation at `b`), and query the
+same proposal again at any block `b2 ≥ b`.  Then the later answer is reachable from the earlier one along
+the forward edges only: equal, Open→Passed, Open→Rejected, Open→Executed (through Passed, by
+`execute_ok_iff`), Passed→Executed.  Never backwards, never Passed→Rejected, never Rejected→anything,
+never Executed→anything.
+(The proposal still exists later and the later query answers: `stored_status_edges`,
+`query_always_answers`; the later world is reachable: `Reachable.extend`.)  An Open-stored proposal is
+*observed* Passed or Rejected only once it has expired (`reachable_openOk`: a vote that decides early
+stores the decision at once — which is also why C04's stability of early decisions under further votes
+is not needed here: `C03.passed_justified` / `C03.rejected_justified` use it for the sticky statuses);
+after expiry no vote is accepted, so only Execute (iff observed Passed) and Close (iff observed
+Rejected) can still change the proposal. -/
+theorem observed_status_monotone {fuel : Nat} {w0 w : World} {b1 b b2 : Block} (hr : Reachable fuel w0)
+    (hf : ReachableFrom fuel w0 b1 w b) (h2 : blockLe b b2) {id : Nat} {v1 v2 : ProposalView}
+    (hq1 : Cw3Fixed.queryProposal w0.ms b1 id = .ok v1) (hq2 : Cw3Fixed.queryProposal w.ms b2 id = .ok v2) :
+    v1.status = v2.status ∨
+      (v1.status = .open ∧ (v2.status = .passed ∨ v2.status = .rejected ∨ v2.status = .executed)) ∨
+      (v1.status = .passed ∧ v2.status = .executed) := by
+  obtain ⟨p0, hp0, hs1⟩ := queryProposal_ok hq1
+  obtain ⟨p, hp, hs2⟩ := queryProposal_ok hq2
+  have hi0 := reachable_inv hr
+  have hopen : OpenOk b1 p0 := reachable_openOk hr id p0 hp0 b1
+  have hinv := reachableFrom_inv
+    (fun b s => blockLe b1 b ∧ Inv s ∧ Later w0.ms.core s.core ∧
+      (p0.status = .open → p0.expires.isExpired b1 = true → FrozenAt p0 v1.status id s.core))
+    (fun b b2 s hb ⟨h1, h2, h3, h4⟩ => ⟨blockLe_trans h1 hb, h2, h3, h4⟩)
+    (fun b s snd m s' out ⟨h1, h2, h3, h4⟩ he =>
+      ⟨h1, execute_inv h2 he, later_trans h3 (execute_later h2 he),
+        fun ho hexp => frozenAt_step ho hexp hs1 h1 (h4 ho hexp) (execute_coreStep he)⟩)
+    (w0 := w0) (b1 := b1)
+    ⟨blockLe_refl _, hi0, later_refl _, fun _ _ => ⟨hi0.wf, p0, hp0, rfl, Or.inl rfl⟩⟩ hf
+  obtain ⟨_, hi, hlater, hfz⟩ := hinv
+  refine (edge_iff_cases _ _).mp (observed_edge_core hi.wf hopen hlater hp0 hp ?_ (blockLe_trans hf.le h2) hs1 hs2)
+  intro ho hexp
+  obtain ⟨_, p', hp', hfo⟩ := hfz ho hexp
+  rw [hp] at hp'; cases hp'
+  exact hfo
+
 /-! ## non-vacuity: a concrete history -/
 
 def exInst : InstMsg :=
@@ -530,5 +586,18 @@ example : executions (run 10 exWorld (exOps ++ [⟨exBlk, .exec "x" (.execute 1)
     ⟨exBlk, .exec "x" (.execute 1)⟩, ⟨exBlk, .exec "y" (.execute 1)⟩])) 1 = 1 := by decide
 /-- the self-executing proposal 2 can never be executed -/
 example : (tx 10 (run 10 exWorld exOps) exBlk "x" (.execute 2)).isOk = false := by decide
+
+/-- non-vacuity of `observed_status_monotone`: `w0` = after proposal 1 passed (last block 100); further
+history at later blocks: funding, then a successful Execute -/
+def exW0 : World := run 10 exWorld (exOps.take 2)
+def exMore : List Op := [⟨⟨101, 1001⟩, .fund 1 "ucosm"⟩, ⟨⟨102, 1002⟩, .exec "x" (.execute 1)⟩]
+
+example : Reachable 10 exW0 := ⟨exInst, exState, "ms", _, true, exOps.take 2, rfl, rfl⟩
+example : ReachableFrom 10 exW0 ⟨100, 1001⟩ (run 10 exW0 exMore) ⟨102, 1002⟩ :=
+  ReachableFrom.step (w := step 10 exW0 ⟨⟨101, 1001⟩, .fund 1 "ucosm"⟩) ⟨⟨102, 1002⟩, .exec "x" (.execute 1)⟩
+    (ReachableFrom.step ⟨⟨101, 1001⟩, .fund 1 "ucosm"⟩ ReachableFrom.refl ⟨by decide, by decide⟩) ⟨by decide, by decide⟩
+/-- observed Passed at block 100 before, Executed at block 500 after -/
+example : ((Cw3Fixed.queryProposal exW0.ms ⟨100, 1001⟩ 1).toOption.map (·.status)) = some .passed ∧
+    ((Cw3Fixed.queryProposal (run 10 exW0 exMore).ms ⟨500, 5000⟩ 1).toOption.map (·.status)) = some .executed := by decide
 
 end CwPlus.Props.C05
